@@ -140,7 +140,8 @@ func (env *aliasEnv) canon(e ast.Expr, depth int) (string, bool) {
 						}
 					}
 				}
-				return "", false
+				// defined from something computed (a call): the variable stands for itself
+				return fmt.Sprintf("%s@%d", v.Name(), v.Pos()), true
 			}
 			// parameter, receiver, range variable: itself
 			return fmt.Sprintf("%s@%d", v.Name(), v.Pos()), true
